@@ -1631,51 +1631,62 @@ package sarama
 //@   ensures[retry_has_cause] acquired() ==> (retry ==> exists k :: 0 <= k && k < len(data.Topics) && (data.Topics[k].Err == ErrUnknownTopicOrPartition || data.Topics[k].Err == ErrLeaderNotAvailable || (data.Topics[k].Err == ErrNoError && exists j :: 0 <= j && j < len(data.Topics[k].Partitions) && data.Topics[k].Partitions[j].Err == ErrLeaderNotAvailable)))
 //@   ensures[retry_on_topic_class] acquired() ==> (forall k :: 0 <= k && k < len(data.Topics) && (data.Topics[k].Err == ErrUnknownTopicOrPartition || data.Topics[k].Err == ErrLeaderNotAvailable) ==> retry)
 //@   ensures[retry_on_leaderless_partition] acquired() ==> (forall k, j :: 0 <= k && k < len(data.Topics) && data.Topics[k].Err == ErrNoError && 0 <= j && j < len(data.Topics[k].Partitions) && data.Topics[k].Partitions[j].Err == ErrLeaderNotAvailable ==> retry)
-//@   loop 0: invariant client.metadata != nil && client.metadataTopics != nil && client.cachedPartitionsResults != nil
-//@   loop 0: invariant[keyed] forall t string, p int32 :: haskey(client.metadata, t) ==> client.metadata[t] != nil && allocated(client.metadata[t]) && (haskey(client.metadata[t], p) ==> client.metadata[t][p] != nil && client.metadata[t][p].ID == p)
-//@   loop 0: invariant[topics_tracked] forall k :: 0 <= k && k < $i ==> haskey(client.metadataTopics, data.Topics[k].Name)
-//@   loop 0: invariant[error_topics_forgotten] forall k :: 0 <= k && k < $i && (forall j2 :: k < j2 && j2 < $i ==> data.Topics[j2].Name != data.Topics[k].Name) && !(data.Topics[k].Err == ErrNoError || data.Topics[k].Err == ErrLeaderNotAvailable) ==> !haskey(client.metadata, data.Topics[k].Name) && !haskey(client.cachedPartitionsResults, data.Topics[k].Name)
-//@   loop 0: invariant[stored_topics_present +cur_topic] forall k :: 0 <= k && k < $i && (forall j2 :: k < j2 && j2 < $i ==> data.Topics[j2].Name != data.Topics[k].Name) && (data.Topics[k].Err == ErrNoError || data.Topics[k].Err == ErrLeaderNotAvailable) ==> haskey(client.metadata, data.Topics[k].Name) && haskey(client.cachedPartitionsResults, data.Topics[k].Name)
-//@   loop 0: invariant[stored_partitions_listed +cur_listed +cur_topic +keyed] forall k, j :: 0 <= k && k < $i && (forall j2 :: k < j2 && j2 < $i ==> data.Topics[j2].Name != data.Topics[k].Name) && (data.Topics[k].Err == ErrNoError || data.Topics[k].Err == ErrLeaderNotAvailable) && 0 <= j && j < len(data.Topics[k].Partitions) ==> haskey(client.metadata[data.Topics[k].Name], data.Topics[k].Partitions[j].ID)
-//@   loop 0: invariant[stored_partitions_only +cur_only +cur_topic +keyed] forall k int, p int32 :: 0 <= k && k < $i && (forall j2 :: k < j2 && j2 < $i ==> data.Topics[j2].Name != data.Topics[k].Name) && (data.Topics[k].Err == ErrNoError || data.Topics[k].Err == ErrLeaderNotAvailable) && haskey(client.metadata[data.Topics[k].Name], p) ==> exists j :: 0 <= j && j < len(data.Topics[k].Partitions) && data.Topics[k].Partitions[j].ID == p && client.metadata[data.Topics[k].Name][p] == data.Topics[k].Partitions[j]
-//@   loop 0: invariant[full_refresh_forgets_unlisted +cur_topic] allKnownMetaData ==> forall t string :: haskey(client.metadata, t) ==> exists k :: 0 <= k && k < $i && data.Topics[k].Name == t
-//@   loop 0: invariant[partial_refresh_keeps_unlisted +cur_topic] !allKnownMetaData ==> forall t string :: (forall k :: 0 <= k && k < $i ==> data.Topics[k].Name != t) ==> haskey(client.metadata, t) == acq(haskey(client.metadata, t)) && client.metadata[t] == acq(client.metadata[t]) && haskey(client.cachedPartitionsResults, t) == acq(haskey(client.cachedPartitionsResults, t))
-//@   loop 0: invariant[err_is_a_topic_error] err != nil ==> exists k :: 0 <= k && k < $i && !(data.Topics[k].Err == ErrNoError || data.Topics[k].Err == ErrLeaderNotAvailable) && err == data.Topics[k].Err
-//@   loop 0: invariant[err_nil_means_no_topic_error +cur_topic] err == nil ==> forall k :: 0 <= k && k < $i ==> (data.Topics[k].Err == ErrNoError || data.Topics[k].Err == ErrLeaderNotAvailable)
-//@   loop 0: invariant[retry_has_cause +retry_cause_cur +cur_topic] retry ==> exists k :: 0 <= k && k < $i && (data.Topics[k].Err == ErrUnknownTopicOrPartition || data.Topics[k].Err == ErrLeaderNotAvailable || (data.Topics[k].Err == ErrNoError && exists j :: 0 <= j && j < len(data.Topics[k].Partitions) && data.Topics[k].Partitions[j].Err == ErrLeaderNotAvailable))
-//@   loop 0: invariant[retry_on_topic_class +cur_topic] forall k :: 0 <= k && k < $i && (data.Topics[k].Err == ErrUnknownTopicOrPartition || data.Topics[k].Err == ErrLeaderNotAvailable) ==> retry
-//@   loop 0: invariant[retry_on_leaderless_partition +cur_retry +cur_topic] forall k, j :: 0 <= k && k < $i && data.Topics[k].Err == ErrNoError && 0 <= j && j < len(data.Topics[k].Partitions) && data.Topics[k].Partitions[j].Err == ErrLeaderNotAvailable ==> retry
-//@   loop 0: invariant lockinv(client.lock, cached_has_metadata)
-//@   loop 0: invariant lockinv(client.lock, all_sorted)
-//@   loop 0: invariant lockinv(client.lock, all_only_known)
-//@   loop 0: invariant lockinv(client.lock, all_complete)
-//@   loop 0: invariant lockinv(client.lock, writable_sorted)
-//@   loop 0: invariant lockinv(client.lock, writable_only_available)
-//@   loop 0: invariant lockinv(client.lock, writable_complete)
-//@   loop 1: invariant client.metadata != nil && client.metadata[topic.Name] != nil && haskey(client.metadata, topic.Name)
-//@   loop 1: invariant !haskey(client.cachedPartitionsResults, topic.Name)
-//@   loop 1: invariant[keyed] forall t string, p int32 :: haskey(client.metadata, t) ==> client.metadata[t] != nil && allocated(client.metadata[t]) && (haskey(client.metadata[t], p) ==> client.metadata[t][p] != nil && client.metadata[t][p].ID == p)
-//@   loop 1: invariant[cur_topic] 0 <= $i0 && $i0 < len(data.Topics) && topic == data.Topics[$i0] && (topic.Err == ErrNoError || topic.Err == ErrLeaderNotAvailable) && haskey(client.metadataTopics, topic.Name) && (topic.Err == ErrLeaderNotAvailable ==> retry)
-//@   loop 1: invariant[cur_listed] forall j :: 0 <= j && j < $i ==> haskey(client.metadata[topic.Name], topic.Partitions[j].ID)
-//@   loop 1: invariant[cur_only] forall p int32 :: haskey(client.metadata[topic.Name], p) ==> exists j :: 0 <= j && j < $i && topic.Partitions[j].ID == p && client.metadata[topic.Name][p] == topic.Partitions[j]
-//@   loop 1: invariant[cur_retry] forall j :: 0 <= j && j < $i && topic.Partitions[j].Err == ErrLeaderNotAvailable ==> retry
-//@   loop 1: invariant[retry_cause_cur] retry ==> (exists k :: 0 <= k && k < $i0 && (data.Topics[k].Err == ErrUnknownTopicOrPartition || data.Topics[k].Err == ErrLeaderNotAvailable || (data.Topics[k].Err == ErrNoError && exists j :: 0 <= j && j < len(data.Topics[k].Partitions) && data.Topics[k].Partitions[j].Err == ErrLeaderNotAvailable))) || topic.Err == ErrLeaderNotAvailable || exists j :: 0 <= j && j < $i && topic.Partitions[j].Err == ErrLeaderNotAvailable
-//@   loop 1: invariant[topics_tracked +cur_topic +keyed] forall k :: 0 <= k && k < $i0 ==> haskey(client.metadataTopics, data.Topics[k].Name)
-//@   loop 1: invariant[error_topics_forgotten +cur_topic +keyed] forall k :: 0 <= k && k < $i0 && (forall j2 :: k < j2 && j2 < $i0 + 1 ==> data.Topics[j2].Name != data.Topics[k].Name) && !(data.Topics[k].Err == ErrNoError || data.Topics[k].Err == ErrLeaderNotAvailable) ==> !haskey(client.metadata, data.Topics[k].Name) && !haskey(client.cachedPartitionsResults, data.Topics[k].Name)
-//@   loop 1: invariant[stored_topics_present +cur_topic +keyed] forall k :: 0 <= k && k < $i0 && (forall j2 :: k < j2 && j2 < $i0 + 1 ==> data.Topics[j2].Name != data.Topics[k].Name) && (data.Topics[k].Err == ErrNoError || data.Topics[k].Err == ErrLeaderNotAvailable) ==> haskey(client.metadata, data.Topics[k].Name) && haskey(client.cachedPartitionsResults, data.Topics[k].Name)
-//@   loop 1: invariant[stored_partitions_listed +cur_topic +keyed] forall k, j :: 0 <= k && k < $i0 && (forall j2 :: k < j2 && j2 < $i0 + 1 ==> data.Topics[j2].Name != data.Topics[k].Name) && (data.Topics[k].Err == ErrNoError || data.Topics[k].Err == ErrLeaderNotAvailable) && 0 <= j && j < len(data.Topics[k].Partitions) ==> haskey(client.metadata[data.Topics[k].Name], data.Topics[k].Partitions[j].ID)
-//@   loop 1: invariant[stored_partitions_only +cur_topic +keyed] forall k int, p int32 :: 0 <= k && k < $i0 && (forall j2 :: k < j2 && j2 < $i0 + 1 ==> data.Topics[j2].Name != data.Topics[k].Name) && (data.Topics[k].Err == ErrNoError || data.Topics[k].Err == ErrLeaderNotAvailable) && haskey(client.metadata[data.Topics[k].Name], p) ==> exists j :: 0 <= j && j < len(data.Topics[k].Partitions) && data.Topics[k].Partitions[j].ID == p && client.metadata[data.Topics[k].Name][p] == data.Topics[k].Partitions[j]
-//@   loop 1: invariant[full_refresh_forgets_unlisted +cur_topic +keyed] allKnownMetaData ==> forall t string :: haskey(client.metadata, t) ==> exists k :: 0 <= k && k < $i0 + 1 && data.Topics[k].Name == t
-//@   loop 1: invariant[partial_refresh_keeps_unlisted +cur_topic +keyed] !allKnownMetaData ==> forall t string :: (forall k :: 0 <= k && k < $i0 + 1 ==> data.Topics[k].Name != t) ==> haskey(client.metadata, t) == acq(haskey(client.metadata, t)) && client.metadata[t] == acq(client.metadata[t]) && haskey(client.cachedPartitionsResults, t) == acq(haskey(client.cachedPartitionsResults, t))
-//@   loop 1: invariant[err_is_a_topic_error +cur_topic +keyed] err != nil ==> exists k :: 0 <= k && k < $i0 && !(data.Topics[k].Err == ErrNoError || data.Topics[k].Err == ErrLeaderNotAvailable) && err == data.Topics[k].Err
-//@   loop 1: invariant[err_nil_means_no_topic_error +cur_topic +keyed] err == nil ==> forall k :: 0 <= k && k < $i0 ==> (data.Topics[k].Err == ErrNoError || data.Topics[k].Err == ErrLeaderNotAvailable)
-//@   loop 1: invariant[retry_on_topic_class +cur_topic +keyed] forall k :: 0 <= k && k < $i0 && (data.Topics[k].Err == ErrUnknownTopicOrPartition || data.Topics[k].Err == ErrLeaderNotAvailable) ==> retry
-//@   loop 1: invariant[retry_on_leaderless_partition +cur_topic +keyed] forall k, j :: 0 <= k && k < $i0 && data.Topics[k].Err == ErrNoError && 0 <= j && j < len(data.Topics[k].Partitions) && data.Topics[k].Partitions[j].Err == ErrLeaderNotAvailable ==> retry
-//@   loop 1: invariant lockinv(client.lock, cached_has_metadata)
-//@   loop 1: invariant lockinv(client.lock, all_sorted)
-//@   loop 1: invariant lockinv(client.lock, all_only_known)
-//@   loop 1: invariant lockinv(client.lock, all_complete)
-//@   loop 1: invariant lockinv(client.lock, writable_sorted)
-//@   loop 1: invariant lockinv(client.lock, writable_only_available)
-//@   loop 1: invariant lockinv(client.lock, writable_complete)
+//@   ensures[brokers_listed_known] acquired() ==> (forall k :: 0 <= k && k < len(data.Brokers) ==> client.brokers[data.Brokers[k].id] != nil)
+//@   ensures[brokers_address_current] acquired() ==> (forall id int32 :: haskey(client.brokers, id) ==> exists k :: 0 <= k && k < len(data.Brokers) && data.Brokers[k].id == id && client.brokers[id] != nil && client.brokers[id].addr == data.Brokers[k].addr)
+//@   ensures[brokers_absent_dropped] acquired() ==> (forall id int32 :: haskey(client.brokers, id) ==> exists k :: 0 <= k && k < len(data.Brokers) && data.Brokers[k].id == id)
+//@   loopname topics: range data.Topics
+//@   loopname partitions: range topic.Partitions
+//@   loop topics: invariant client.metadata != nil && client.metadataTopics != nil && client.cachedPartitionsResults != nil
+//@   loop topics: invariant[keyed] forall t string, p int32 :: haskey(client.metadata, t) ==> client.metadata[t] != nil && allocated(client.metadata[t]) && (haskey(client.metadata[t], p) ==> client.metadata[t][p] != nil && client.metadata[t][p].ID == p)
+//@   loop topics: invariant[topics_tracked] forall k :: 0 <= k && k < $i ==> haskey(client.metadataTopics, data.Topics[k].Name)
+//@   loop topics: invariant[error_topics_forgotten] forall k :: 0 <= k && k < $i && (forall j2 :: k < j2 && j2 < $i ==> data.Topics[j2].Name != data.Topics[k].Name) && !(data.Topics[k].Err == ErrNoError || data.Topics[k].Err == ErrLeaderNotAvailable) ==> !haskey(client.metadata, data.Topics[k].Name) && !haskey(client.cachedPartitionsResults, data.Topics[k].Name)
+//@   loop topics: invariant[stored_topics_present +cur_topic] forall k :: 0 <= k && k < $i && (forall j2 :: k < j2 && j2 < $i ==> data.Topics[j2].Name != data.Topics[k].Name) && (data.Topics[k].Err == ErrNoError || data.Topics[k].Err == ErrLeaderNotAvailable) ==> haskey(client.metadata, data.Topics[k].Name) && haskey(client.cachedPartitionsResults, data.Topics[k].Name)
+//@   loop topics: invariant[stored_partitions_listed +cur_listed +cur_topic +keyed] forall k, j :: 0 <= k && k < $i && (forall j2 :: k < j2 && j2 < $i ==> data.Topics[j2].Name != data.Topics[k].Name) && (data.Topics[k].Err == ErrNoError || data.Topics[k].Err == ErrLeaderNotAvailable) && 0 <= j && j < len(data.Topics[k].Partitions) ==> haskey(client.metadata[data.Topics[k].Name], data.Topics[k].Partitions[j].ID)
+//@   loop topics: invariant[stored_partitions_only +cur_only +cur_topic +keyed] forall k int, p int32 :: 0 <= k && k < $i && (forall j2 :: k < j2 && j2 < $i ==> data.Topics[j2].Name != data.Topics[k].Name) && (data.Topics[k].Err == ErrNoError || data.Topics[k].Err == ErrLeaderNotAvailable) && haskey(client.metadata[data.Topics[k].Name], p) ==> exists j :: 0 <= j && j < len(data.Topics[k].Partitions) && data.Topics[k].Partitions[j].ID == p && client.metadata[data.Topics[k].Name][p] == data.Topics[k].Partitions[j]
+//@   loop topics: invariant[full_refresh_forgets_unlisted +cur_topic] allKnownMetaData ==> forall t string :: haskey(client.metadata, t) ==> exists k :: 0 <= k && k < $i && data.Topics[k].Name == t
+//@   loop topics: invariant[partial_refresh_keeps_unlisted +cur_topic] !allKnownMetaData ==> forall t string :: (forall k :: 0 <= k && k < $i ==> data.Topics[k].Name != t) ==> haskey(client.metadata, t) == acq(haskey(client.metadata, t)) && client.metadata[t] == acq(client.metadata[t]) && haskey(client.cachedPartitionsResults, t) == acq(haskey(client.cachedPartitionsResults, t))
+//@   loop topics: invariant[err_is_a_topic_error] err != nil ==> exists k :: 0 <= k && k < $i && !(data.Topics[k].Err == ErrNoError || data.Topics[k].Err == ErrLeaderNotAvailable) && err == data.Topics[k].Err
+//@   loop topics: invariant[err_nil_means_no_topic_error +cur_topic] err == nil ==> forall k :: 0 <= k && k < $i ==> (data.Topics[k].Err == ErrNoError || data.Topics[k].Err == ErrLeaderNotAvailable)
+//@   loop topics: invariant[retry_has_cause +retry_cause_cur +cur_topic] retry ==> exists k :: 0 <= k && k < $i && (data.Topics[k].Err == ErrUnknownTopicOrPartition || data.Topics[k].Err == ErrLeaderNotAvailable || (data.Topics[k].Err == ErrNoError && exists j :: 0 <= j && j < len(data.Topics[k].Partitions) && data.Topics[k].Partitions[j].Err == ErrLeaderNotAvailable))
+//@   loop topics: invariant[retry_on_topic_class +cur_topic] forall k :: 0 <= k && k < $i && (data.Topics[k].Err == ErrUnknownTopicOrPartition || data.Topics[k].Err == ErrLeaderNotAvailable) ==> retry
+//@   loop topics: invariant[retry_on_leaderless_partition +cur_retry +cur_topic] forall k, j :: 0 <= k && k < $i && data.Topics[k].Err == ErrNoError && 0 <= j && j < len(data.Topics[k].Partitions) && data.Topics[k].Partitions[j].Err == ErrLeaderNotAvailable ==> retry
+//@   loop topics: invariant lockinv(client.lock, cached_has_metadata)
+//@   loop topics: invariant lockinv(client.lock, all_sorted)
+//@   loop topics: invariant lockinv(client.lock, all_only_known)
+//@   loop topics: invariant lockinv(client.lock, all_complete)
+//@   loop topics: invariant lockinv(client.lock, writable_sorted)
+//@   loop topics: invariant lockinv(client.lock, writable_only_available)
+//@   loop topics: invariant lockinv(client.lock, writable_complete)
+//@   loop topics: invariant[brokers_listed_known] forall k :: 0 <= k && k < len(data.Brokers) ==> client.brokers[data.Brokers[k].id] != nil
+//@   loop topics: invariant[brokers_address_current] forall id int32 :: haskey(client.brokers, id) ==> exists k :: 0 <= k && k < len(data.Brokers) && data.Brokers[k].id == id && client.brokers[id] != nil && client.brokers[id].addr == data.Brokers[k].addr
+//@   loop topics: invariant[brokers_absent_dropped] forall id int32 :: haskey(client.brokers, id) ==> exists k :: 0 <= k && k < len(data.Brokers) && data.Brokers[k].id == id
+//@   loop partitions: invariant client.metadata != nil && client.metadata[topic.Name] != nil && haskey(client.metadata, topic.Name)
+//@   loop partitions: invariant !haskey(client.cachedPartitionsResults, topic.Name)
+//@   loop partitions: invariant[keyed] forall t string, p int32 :: haskey(client.metadata, t) ==> client.metadata[t] != nil && allocated(client.metadata[t]) && (haskey(client.metadata[t], p) ==> client.metadata[t][p] != nil && client.metadata[t][p].ID == p)
+//@   loop partitions: invariant[cur_topic] 0 <= $i_topics && $i_topics < len(data.Topics) && topic == data.Topics[$i_topics] && (topic.Err == ErrNoError || topic.Err == ErrLeaderNotAvailable) && haskey(client.metadataTopics, topic.Name) && (topic.Err == ErrLeaderNotAvailable ==> retry)
+//@   loop partitions: invariant[cur_listed] forall j :: 0 <= j && j < $i ==> haskey(client.metadata[topic.Name], topic.Partitions[j].ID)
+//@   loop partitions: invariant[cur_only] forall p int32 :: haskey(client.metadata[topic.Name], p) ==> exists j :: 0 <= j && j < $i && topic.Partitions[j].ID == p && client.metadata[topic.Name][p] == topic.Partitions[j]
+//@   loop partitions: invariant[cur_retry] forall j :: 0 <= j && j < $i && topic.Partitions[j].Err == ErrLeaderNotAvailable ==> retry
+//@   loop partitions: invariant[retry_cause_cur] retry ==> (exists k :: 0 <= k && k < $i_topics && (data.Topics[k].Err == ErrUnknownTopicOrPartition || data.Topics[k].Err == ErrLeaderNotAvailable || (data.Topics[k].Err == ErrNoError && exists j :: 0 <= j && j < len(data.Topics[k].Partitions) && data.Topics[k].Partitions[j].Err == ErrLeaderNotAvailable))) || topic.Err == ErrLeaderNotAvailable || exists j :: 0 <= j && j < $i && topic.Partitions[j].Err == ErrLeaderNotAvailable
+//@   loop partitions: invariant[topics_tracked +cur_topic +keyed] forall k :: 0 <= k && k < $i_topics ==> haskey(client.metadataTopics, data.Topics[k].Name)
+//@   loop partitions: invariant[error_topics_forgotten +cur_topic +keyed] forall k :: 0 <= k && k < $i_topics && (forall j2 :: k < j2 && j2 < $i_topics + 1 ==> data.Topics[j2].Name != data.Topics[k].Name) && !(data.Topics[k].Err == ErrNoError || data.Topics[k].Err == ErrLeaderNotAvailable) ==> !haskey(client.metadata, data.Topics[k].Name) && !haskey(client.cachedPartitionsResults, data.Topics[k].Name)
+//@   loop partitions: invariant[stored_topics_present +cur_topic +keyed] forall k :: 0 <= k && k < $i_topics && (forall j2 :: k < j2 && j2 < $i_topics + 1 ==> data.Topics[j2].Name != data.Topics[k].Name) && (data.Topics[k].Err == ErrNoError || data.Topics[k].Err == ErrLeaderNotAvailable) ==> haskey(client.metadata, data.Topics[k].Name) && haskey(client.cachedPartitionsResults, data.Topics[k].Name)
+//@   loop partitions: invariant[stored_partitions_listed +cur_topic +keyed] forall k, j :: 0 <= k && k < $i_topics && (forall j2 :: k < j2 && j2 < $i_topics + 1 ==> data.Topics[j2].Name != data.Topics[k].Name) && (data.Topics[k].Err == ErrNoError || data.Topics[k].Err == ErrLeaderNotAvailable) && 0 <= j && j < len(data.Topics[k].Partitions) ==> haskey(client.metadata[data.Topics[k].Name], data.Topics[k].Partitions[j].ID)
+//@   loop partitions: invariant[stored_partitions_only +cur_topic +keyed] forall k int, p int32 :: 0 <= k && k < $i_topics && (forall j2 :: k < j2 && j2 < $i_topics + 1 ==> data.Topics[j2].Name != data.Topics[k].Name) && (data.Topics[k].Err == ErrNoError || data.Topics[k].Err == ErrLeaderNotAvailable) && haskey(client.metadata[data.Topics[k].Name], p) ==> exists j :: 0 <= j && j < len(data.Topics[k].Partitions) && data.Topics[k].Partitions[j].ID == p && client.metadata[data.Topics[k].Name][p] == data.Topics[k].Partitions[j]
+//@   loop partitions: invariant[full_refresh_forgets_unlisted +cur_topic +keyed] allKnownMetaData ==> forall t string :: haskey(client.metadata, t) ==> exists k :: 0 <= k && k < $i_topics + 1 && data.Topics[k].Name == t
+//@   loop partitions: invariant[partial_refresh_keeps_unlisted +cur_topic +keyed] !allKnownMetaData ==> forall t string :: (forall k :: 0 <= k && k < $i_topics + 1 ==> data.Topics[k].Name != t) ==> haskey(client.metadata, t) == acq(haskey(client.metadata, t)) && client.metadata[t] == acq(client.metadata[t]) && haskey(client.cachedPartitionsResults, t) == acq(haskey(client.cachedPartitionsResults, t))
+//@   loop partitions: invariant[err_is_a_topic_error +cur_topic +keyed] err != nil ==> exists k :: 0 <= k && k < $i_topics && !(data.Topics[k].Err == ErrNoError || data.Topics[k].Err == ErrLeaderNotAvailable) && err == data.Topics[k].Err
+//@   loop partitions: invariant[err_nil_means_no_topic_error +cur_topic +keyed] err == nil ==> forall k :: 0 <= k && k < $i_topics ==> (data.Topics[k].Err == ErrNoError || data.Topics[k].Err == ErrLeaderNotAvailable)
+//@   loop partitions: invariant[retry_on_topic_class +cur_topic +keyed] forall k :: 0 <= k && k < $i_topics && (data.Topics[k].Err == ErrUnknownTopicOrPartition || data.Topics[k].Err == ErrLeaderNotAvailable) ==> retry
+//@   loop partitions: invariant[retry_on_leaderless_partition +cur_topic +keyed] forall k, j :: 0 <= k && k < $i_topics && data.Topics[k].Err == ErrNoError && 0 <= j && j < len(data.Topics[k].Partitions) && data.Topics[k].Partitions[j].Err == ErrLeaderNotAvailable ==> retry
+//@   loop partitions: invariant lockinv(client.lock, cached_has_metadata)
+//@   loop partitions: invariant lockinv(client.lock, all_sorted)
+//@   loop partitions: invariant lockinv(client.lock, all_only_known)
+//@   loop partitions: invariant lockinv(client.lock, all_complete)
+//@   loop partitions: invariant lockinv(client.lock, writable_sorted)
+//@   loop partitions: invariant lockinv(client.lock, writable_only_available)
+//@   loop partitions: invariant lockinv(client.lock, writable_complete)
+//@   loop partitions: invariant[brokers_listed_known] forall k :: 0 <= k && k < len(data.Brokers) ==> client.brokers[data.Brokers[k].id] != nil
+//@   loop partitions: invariant[brokers_address_current] forall id int32 :: haskey(client.brokers, id) ==> exists k :: 0 <= k && k < len(data.Brokers) && data.Brokers[k].id == id && client.brokers[id] != nil && client.brokers[id].addr == data.Brokers[k].addr
+//@   loop partitions: invariant[brokers_absent_dropped] forall id int32 :: haskey(client.brokers, id) ==> exists k :: 0 <= k && k < len(data.Brokers) && data.Brokers[k].id == id
 // END generated: client.updateMetadata
